@@ -41,6 +41,11 @@ struct Part {
     // entries of a digest list that are the hash of another entry, of a disclosure string or of a salt
     // (over the text or over the decoded bytes): a decoy derived from published material is recognisable
     derived_entries: u64,
+    // nested digest lists of 320 entries (in the payload, and inside a disclosed value): issuances seen, those in which the
+    // digest of the claim marked LAST lies in the first quarter of the list, those in which the one marked FIRST lies in the last quarter
+    long_seen: u64,
+    long_last_in_first_quarter: u64,
+    long_first_in_last_quarter: u64,
 }
 
 fn real_subsequence_in_marking_order(list: &[Value], digests_in_marking_order: &[String]) -> Option<bool> {
@@ -160,6 +165,35 @@ fn run_part(n: u64, offset: u64) -> Part {
             }
         }
     }
+    for g in 0..8u64 {
+        let mut big = serde_json::Map::new();
+        for i in 0..320 {
+            big.insert(format!("m{:03}", i), json!(i));
+        }
+        let mut iss = match sdjwt::Issuer::new(json!({"keep": 0, "big": Value::Object(big)})) { Ok(i) => i, Err(_) => continue };
+        for i in 0..320 {
+            iss.disclosable(&format!("/big/m{:03}", i));
+        }
+        if g % 2 == 1 {
+            iss.disclosable("/big");
+        }
+        iss.header(sdjwt::Header::new(sdjwt::Algorithm::HS256));
+        let token = match catch_unwind(AssertUnwindSafe(|| iss.encode(&key))) { Ok(Ok(t)) => t, _ => { part.failures += 1; continue } };
+        let segs: Vec<&str> = token.split('~').collect();
+        let payload = match segs[0].split('.').nth(1).and_then(indep::decode_json) { Some(p) => p, None => continue };
+        let decoded: Vec<(String, Value)> = segs[1..segs.len() - 1].iter().filter_map(|d| indep::decode_json(d).map(|v| (d.to_string(), v))).collect();
+        let list: Vec<String> = if g % 2 == 1 {
+            decoded.iter().find(|(_, v)| v[1] == "big").and_then(|(_, v)| v[2]["_sd"].as_array().cloned())
+        } else {
+            payload["big"]["_sd"].as_array().cloned()
+        }.map(|a| a.iter().filter_map(|x| x.as_str().map(String::from)).collect()).unwrap_or_default();
+        let pos_of = |name: &str| decoded.iter().find(|(_, v)| v[1] == name).map(|(d, _)| indep::hash("sha-256", d)).and_then(|h| list.iter().position(|x| *x == h));
+        if let (320, Some(first), Some(last)) = (list.len(), pos_of("m000"), pos_of("m319")) {
+            part.long_seen += 1;
+            if last < 80 { part.long_last_in_first_quarter += 1; }
+            if first >= 240 { part.long_first_in_last_quarter += 1; }
+        }
+    }
     // one prepared issuer, cloned per issuance (a template credential): the clones must not share their random choices -
     // the positions of the claims' digests in the top-level list differ from clone to clone
     for g in 0..(n / 40).max(2) {
@@ -237,6 +271,9 @@ pub fn exec_history(input: &Value) -> Value {
             sum.lists_seen[k] += p.lists_seen[k];
         }
         sum.derived_entries += p.derived_entries;
+        sum.long_seen += p.long_seen;
+        sum.long_last_in_first_quarter += p.long_last_in_first_quarter;
+        sum.long_first_in_last_quarter += p.long_first_in_last_quarter;
         for k in 0..2 {
             sum.mixed_seen[k] += p.mixed_seen[k];
             sum.real_first[k] += p.real_first[k];
@@ -259,6 +296,8 @@ pub fn exec_history(input: &Value) -> Value {
         "lists_seen": sum.lists_seen, "lists_in_marking_order": sum.marking_order,
         "mixed_lists_seen": sum.mixed_seen, "mixed_lists_real_first": sum.real_first,
         "decoys_derived_from_published_material": sum.derived_entries,
+        "long_lists_seen": sum.long_seen, "long_last_marked_in_first_quarter": sum.long_last_in_first_quarter,
+        "long_first_marked_in_last_quarter": sum.long_first_in_last_quarter,
         "example_dup": [ds, dd, dc],
     })
 }
